@@ -190,3 +190,19 @@ func (nc *Coordinator) VerifDeliver(responses ...*protocol.ConsumerGroupStatus) 
 	close(run.quitChannel)
 	run.running.Wait()
 }
+
+// VerifModuleExtras reports, per module, the extras its templates will be given (as Configure handed them to the module).
+func (nc *Coordinator) VerifModuleExtras() map[string]map[string]string {
+	out := make(map[string]map[string]string)
+	for name, m := range nc.modules {
+		switch mod := m.(type) {
+		case *NullNotifier:
+			out[name] = mod.extras
+		case *HTTPNotifier:
+			out[name] = mod.extras
+		case *EmailNotifier:
+			out[name] = mod.extras
+		}
+	}
+	return out
+}
